@@ -858,6 +858,63 @@ def c17(a):
 ALL_ENTRIES = "flat,flat_wo,flat_re,deep,f2d,d2f,f2d2f,parse_f64,parse_wo_f64,deep_f64,eval_str_f64,eval_str_f32,parse_val,stmt,stmt_val"
 
 
+STMT_V = __import__("re").compile(r'<<\s*"V",\s*(\d+),\s*(\d+),\s*"stmt",\s*"([^"]*)"\s*>>')
+
+
+def stmts_coverage(v, pid, tier):
+    """Statement store (Stmts.tla): every session of <= 2/3 lines over the line alphabet of MC_Stmts replayed through
+    line_2_statement + Statements and trace-validated.  No listed property constrains the module beyond "no crash":
+    a panic is a violation of C06, any other difference is reported as drift of the specification."""
+    q = tier == "quick"
+    tag = f"{pid}/mcstmts"
+    cfg = work(tag + ".cfg")
+    write_cfg(cfg, {"MaxLines": 3 if q else 4, "Emit": True}, invariants=["NamesDistinct", "Total", "EmitCases"], props=["Monotone"])
+    outp = work(tag + ".stmts.ndjson")
+    res, summ, _ = pipeline.gen_replay_shard("MC_Stmts", cfg, tag, ["stmts", "--out", outp], workers=4, timeout=1500)
+    if res.violated or res.error or "violated" in res.out:
+        print(res.out[-3000:])
+        raise vlib.ToolError(f"MC_Stmts: {res.violated or res.error} - statement spec inconsistent (spec bug)")
+    v.add_tlc(res, f"MC_Stmts[<= {3 if q else 4} lines]")
+    v.cov["traces_validated_against_impl"] += summ["cases"]
+    v.cov["evaluations"] += summ["runs"]
+    stats = {"ok": 0, "inconclusive": 0, "drift": 0, "panic": 0}
+    for part in pipeline.split_ndjson(outp, 2500, header=True):
+        r = vlib.run_tlc("Judge_Stmts", os.path.join(SPEC, "Judge_Stmts.cfg"), f"{pid}-jstmts-{os.path.basename(part)}", workers=1, timeout=1500,
+                         env_extra={"TRACE": part}, heap="3g")
+        vlib.tlc_or_die(r, f"Judge_Stmts on {part}")
+        v.add_tlc(r, f"Judge_Stmts[{os.path.basename(part)}]")
+        recs = None
+        for m in STMT_V.finditer(r.out):
+            case, k, verdict = int(m.group(1)), int(m.group(2)), m.group(3)
+            if verdict == "ok":
+                stats["ok"] += 1
+                continue
+            if verdict.startswith("inconclusive"):
+                stats["inconclusive"] += 1
+                continue
+            if recs is None:
+                recs = {}
+                for line in open(part):
+                    qq = json.loads(line)
+                    if "case" in qq:
+                        recs[qq["case"]] = qq
+            lines = [vlib.uncps(x) for x in recs.get(case, {}).get("lines", [])]
+            if verdict == "bad:panic":
+                stats["panic"] += 1
+                v.violation({"lines": lines, "line": k}, f"an input text crashed the library: statement session {lines} line {k}: panic")
+            else:
+                stats["drift"] += 1
+                if stats["drift"] <= 5:
+                    v.drift.append(f"Stmts.tla: session {lines} line {k}: {verdict}")
+    nlines = sum(stats.values())
+    if nlines != summ["runs"]:
+        raise vlib.ToolError(f"Judge_Stmts: {summ['runs']} lines recorded but {nlines} verdicts parsed")
+    v.cov["statement_sessions"] = dict(stats, sessions=summ["cases"])
+    v.notes.append(f"statement store (Stmts.tla, beyond the listed properties): all {summ['cases']} sessions of <= {3 if q else 4} lines over 20 lines "
+                   f"(assignment of values / expressions, re-assignment, evaluation of bound, unbound and transitively bound names, unsupported "
+                   f"and malformed lines) replayed through line_2_statement + Statements and trace-validated: {stats}")
+
+
 @register("C06")
 def c06(a):
     v = Verdict("C06", a.tier, "model_checking")
@@ -963,6 +1020,7 @@ def c06(a):
     v.cov["longchain"] = lcstat
     v.notes.append(f"long unnested texts: {len(lc)} cases (20..500 operands = 39..999 tokens; one operator or alternating priorities; f64 and the value "
                    f"type) through parse/eval, unparse, deep parse, to_deepex, deep->flat, flat->deep->flat, partial, each in its own process: {lcstat}")
+    stmts_coverage(v, "C06", a.tier)
     v.cov["rule"] = "every token sequence / character string up to the bound (exhaustive, tallied against TLC's state count)"
     v.cov["distinct_nontrivial"] = ntok + nstr
     v.cov["exhaustive"] = True
